@@ -108,6 +108,19 @@ CLAIMED["C08"] = dict(
     technique="runtime monitoring: print/parse round-trip oracle with span-consistency monitor; exhaustive operator-chain enumeration against a reference grouping algorithm",
 )
 
+CLAIMED["C10"] = dict(
+    category="exploration",
+    text="Generated programs in varied concrete styles (incl. CRLF, own-line comments, one inline comment in a random token "
+         "gap, a comment ending the input) and every .glu file of the repository under whitespace perturbations are "
+         "formatted with format_expr; oracles: success, identical AST from the real parser with positions erased, "
+         "literal tokens byte-for-byte, comment texts in order, second pass is a no-op.",
+    design_ref="DESIGN.md §4 C10",
+    note="Comments inside expressions are judged as one placement class (known finding F12 lists the failure kinds seen "
+         "there), own-line placements individually (F12a: after an explicit `in`); F31 (second pass inserts blank lines "
+         "after an opening bracket) and F32 (do-binding type annotation dropped) listed; F13 fixed.",
+    technique="runtime monitoring: round-trip oracles over the real formatter (AST fingerprint, literal and comment scanners, idempotence)",
+)
+
 NOT_YET = "check not built yet in this session (work in progress; see DESIGN.md for the planned monitor)"
 
 def main():
